@@ -7,10 +7,24 @@ Proof part (coq/theories/C20_*.v):
     source on every run; `extra_obligations` compiles it);
   * string guards of valuerep.py imply pydicom's validators;
   * identifier facts (uid.py / pydicom.uid.generate_uid).
+  * storage of look-up tables (even length, little endian, accessor returns the
+    caller's entries), identifiers of the objects built by one call
+    (create_segmentation_pyramid), little-endian native Parametric Map frames.
 Correspondence (model vs implementation): guard, valid, uid_uuid, uid_hd,
-uid_valid.  Runtime support (oracle only): conv (snapshot of the argument
-around every reachable converter, copy in {True, False}) and ctor (snapshot of
-constructor arguments, strict write, read back, identifiers).
+uid_valid, lut (LUT / VOILUT / ModalityLUT / PresentationLUT / PaletteColorLUT /
+PaletteColorLUTTransformation through every entry point, alone or inside a
+seg / pm / pr object), pyr_ids (number of levels, which levels share a SOP
+Instance UID, refusals), pm_native (bytes of (Double)FloatPixelData for either
+byte order of the input).  Runtime support (oracle only): conv (snapshot of the
+argument around every reachable converter, copy in {True, False}), ctor
+(snapshot of constructor arguments, strict write, read back element for
+element - a value the writer pads is a difference -, identifiers), ctor_layout
+(the same over memory layouts of the arrays: Fortran order, non-native byte
+order, strided / reversed / offset views into a larger caller-owned buffer whose
+bytes are snapshotted too, write-protected arrays; a refusal is fine, a write is
+not), ctor_multi (entry points that build several objects in one call: each
+object on its own AND pairwise distinct identifiers), ctor_opt (palette colour
+tables 8/16 bit, odd/even sizes, each entry point, inside seg and pm).
 """
 import copy as _copy
 import io
@@ -36,21 +50,37 @@ ORACLE_PREMISES = [
     'PURE/INPLACE method lists, TRUSTED_FRESH paths (harness/translate_c20.py)',
     'pydicom validators and UID regex transcribed by hand (C20_Model pydicom_valid / uid_valid), tied by the '
     'valid / uid_valid correspondence kinds',
-    'constructors (~500-line bodies) and pydicom writer/reader are exercised, not modelled (kinds conv, ctor)',
+    'constructors (~500-line bodies) and pydicom writer/reader are exercised, not modelled (kinds conv, ctor, '
+    'ctor_layout, ctor_multi, ctor_opt); memory layout of numpy arrays and aliasing with caller-owned buffers are '
+    'outside the model (snapshot oracle only)',
+    'secrets.randbelow gives distinct draws (premise NoDup draws of C20_alloc_ids_fresh; the pyr_ids kind replaces '
+    'it by a counter, uid_unique samples the real one)',
+    'numpy dtype -> bits per entry and ndarray.tobytes() of a little-endian array = memory image (lut, pm_native)',
 ]
 MODELLED = ('all from_dataset/from_sequence/extract_from_dataset/_from_dataset_* classmethods under src/highdicom '
             '(effect terms, regenerated each run); valuerep._check_code_string/_check_short_string/_check_long_string/'
             '_check_short_text/_check_long_text; uid.UID() and UID.from_uuid; pydicom VALIDATORS[CS,SH,LO,ST,LT], '
-            'VALIDATORS[UI]')
+            'VALIDATORS[UI]; content.LUT / PaletteColorLUT / PaletteColorLUTTransformation __init__ (guards, descriptor, '
+            'stored bytes) and lut_data; seg.pyramid.create_segmentation_pyramid argument checks, number of outputs and '
+            'SOP Instance UID per level; pm.ParametricMap._encode_frame native branch')
 STRATA = ['guard', 'valid', 'uid_uuid', 'uid_hd', 'uid_valid', 'uid_unique', 'conv', 'ctor',
           'ctor_layout', 'ctor_multi', 'ctor_opt', 'lut', 'pyr_ids', 'pm_native']
 NOT_EXECUTED = ['SpecimenDescription.from_dataset at run time (substitute attribute table has no specimen module tree)',
-                'JPEG 2000 / JPEG-LS transfer syntaxes in the ctor kind']
+                'JPEG 2000 / JPEG-LS transfer syntaxes in the ctor kinds',
+                'non-native byte order for seg / sc pixel arrays and integer pm arrays is REFUSED by the library '
+                '(TypeError / ValueError, counted as rejected, inputs checked unchanged); only float pm arrays and '
+                'LUT tables are accepted in that byte order']
 RULE = ('guard/valid: strings over a boundary alphabet (upper, lower, digit, space, underscore, backslash, newline, '
         'non-ASCII) with lengths around every limit (0,1,15,16,17,63,64,65,1023..1025,10239..10241); uid: 128-bit '
         'draws incl. 0, 9, 10, 2^k, 2^128-1; conv: every reachable converter x copy in {True,False} on randomly '
         'populated plain datasets; ctor: seg (BINARY/FRACTIONAL/LABELMAP x dtypes), pm, sc, sr, ko, ann with '
-        'argument snapshots, strict write and read back. non-trivial = accepted value / changed class / written file')
+        'argument snapshots, strict write and read back; ctor_layout: pm (rank 2/3/4, 1-2 mappings, u1/u2/f4/f8), seg x3, '
+        'sc, ann, pr, pyramid x 9 memory layouts (C, F, byte-swapped, strided, reversed, offset view, read-only and '
+        'combinations); ctor_multi: create_segmentation_pyramid x {factors, sources, arrays} x {2,3 levels} x '
+        '{identifiers generated, passed}; ctor_opt / lut: tables of 1,2,3,4,5,7,8,255,256,257 entries x 8/16 bit x '
+        'class x entry point (three LUTs, combined array, colour names, segmented) x holder (none, seg, pm, pr) + '
+        'refusals; pyr_ids: every guard of the argument check + random; pm_native: byte order x width x rank x '
+        'mappings. non-trivial = accepted value / changed class / written file')
 
 VRS = ['CS', 'SH', 'LO', 'ST', 'LT']
 LIMIT = {'CS': 16, 'SH': 16, 'LO': 64, 'ST': 1024, 'LT': 10240}
@@ -704,6 +734,8 @@ def _b_seg(seg_type):
         src, arr, st, descs, kw = _seg(rng, seg_type=seg_type, dtype=opt.get('dtype'), layout=opt.get('layout'),
                                        palette=opt.get('palette'))
         owned = kw.pop('_owned', [])
+        if opt.get('ts') == 'rle' and st != 'BINARY':
+            kw['transfer_syntax_uid'] = '1.2.840.10008.1.2.5'        # RLE Lossless: the encoder sees the frames
         args = [src, arr, descs] + ([kw['pixel_measures']] if 'pixel_measures' in kw else []) + owned
         strs = dict(manufacturer=_bstr(rng, 64), manufacturer_model_name=_bstr(rng, 64),
                     software_versions=_bstr(rng, 64), device_serial_number=_bstr(rng, 64),
@@ -813,13 +845,19 @@ def _b_sc(rng, opt=None):
     elif rng.random() < 0.3:
         a = np.asfortranarray(a)
 
+    tskw = {'transfer_syntax_uid': '1.2.840.10008.1.2.5'} if opt.get('ts') == 'rle' else {}
+
     def make():
         return hd.sc.SCImage(a, pi, ba, 'PATIENT', hd.UID(), hd.UID(), 1, hd.UID(), 1, 'm', patient_id='p',
                              patient_name='a^b', patient_birth_date='19700101', patient_sex='O',
                              accession_number='1', study_id='1', study_date='20200101', study_time='101010',
-                             referring_physician_name='x^y', patient_orientation=('L', 'P'))
+                             referring_physician_name='x^y', patient_orientation=('L', 'P'), **tskw)
 
     def post(obj, back):
+        if tskw:
+            got = back.pixel_array
+            return None if np.array_equal(got.reshape(expected.shape), expected) else \
+                'decoded RLE PixelData does not hold the values of the pixel array passed in'
         got = np.frombuffer(back.PixelData, '<u1' if back.BitsAllocated == 8 else '<u2')[:expected.size]
         if not np.array_equal(got.reshape(expected.shape), expected):
             return 'PixelData does not hold the values of the pixel array passed in'
@@ -893,7 +931,9 @@ def _b_pr(rng, opt=None):
         owned = [data, kw['modality_lut_transformation']]
     if form == 'pseudocolor':
         cols3 = [[rng.randrange(65536) for _ in range(n)] for _ in range(3)]
-        tf, more = _palette_from(16, 0, cols3[0], cols3[1], cols3[2], rng.choice(['luts', 'combined']), lay)
+        # (a combined array in non-native byte order is refused by from_combined_lut: kind lut)
+        tf, more = _palette_from(16, 0, cols3[0], cols3[1], cols3[2],
+                                 'luts' if 'swapped' in lay else rng.choice(['luts', 'combined']), lay)
         kw['palette_color_lut_transformation'] = tf
         owned = [tf] + more
 
@@ -992,7 +1032,29 @@ def _b_content(kind):
     return build
 
 
+def _b_generated_ids(kind):
+    """Content classes that generate an identifier when the caller passes none, several per call."""
+    def build(rng, opt=None):
+        import random
+        sub = rng.getrandbits(32)
+
+        def make():
+            import highdicom as hd
+            from highdicom import sr
+            r = random.Random(sub)
+            if kind == 'tracking_identifiers':
+                return [sr.TrackingIdentifier(identifier=_bstr(r, 64)) for _ in range(3)] + [sr.TrackingIdentifier()]
+            if kind == 'dimension_indexes':
+                return [hd.seg.DimensionIndexSequence(r.choice(['PATIENT', 'SLIDE'])) for _ in range(2)] + \
+                    [hd.pm.DimensionIndexSequence(r.choice(['PATIENT', 'SLIDE'])) for _ in range(2)]
+            raise ValueError(kind)
+        return [], make
+    return build
+
+
 CONSTRUCTORS = {
+    'tracking_identifiers': _b_generated_ids('tracking_identifiers'),
+    'dimension_indexes': _b_generated_ids('dimension_indexes'),
     'seg_binary': _b_seg('BINARY'), 'seg_fractional': _b_seg('FRACTIONAL'), 'seg_labelmap': _b_seg('LABELMAP'),
     'pm': _b_pm, 'sc': _b_sc, 'sr_comprehensive': _b_sr('ComprehensiveSR'),
     'sr_comprehensive3d': _b_sr('Comprehensive3DSR'), 'sr_enhanced': _b_sr('EnhancedSR'),
@@ -1107,7 +1169,7 @@ def _check_object(target, obj, out):
         holder.ContentSequence = obj
     d = _validate_all(holder)
     if d:
-        return f"{target}: constructed object holds a value pydicom refuses to write: {d}", None
+        return f"{target}: constructed object holds a value that cannot be written as it is: {d}", None
     if 'SOPInstanceUID' not in holder:
         # content class: write it as an item of a bare dataset and read it back
         wrap = Dataset()
@@ -1237,7 +1299,26 @@ def run_constructor(c):
         if d:
             out['violation'] = f"{label}: {d}"
             return out
-    if 'SOPInstanceUID' not in objs[0]:
+    if not hasattr(objs[0], 'keys') or 'SOPInstanceUID' not in objs[0]:
+        # content classes: identifiers the library generates are new for every object and every call
+        def gen_uids(o):
+            acc = []
+            for it in ([o] if hasattr(o, 'keys') else list(o)):
+                _uids(it, acc)
+            return {u for _, u in acc if u.startswith(HD_ROOT)}
+        per = [gen_uids(o) for o in objs]
+        out['generated_uids'] = sum(len(x) for x in per)
+        for i in range(len(per)):
+            for j in range(i + 1, len(per)):
+                if per[i] & per[j]:
+                    out['violation'] = (f"{label}: objects {i} and {j} built by one call share the generated "
+                                        f"identifier {sorted(per[i] & per[j])[0]}")
+                    return out
+        if out['generated_uids'] and c.get('kind') == 'ctor_multi':
+            obj2 = make()
+            again = set().union(*[gen_uids(o) for o in (list(obj2) if isinstance(obj2, list) else [obj2])])
+            if again & set().union(*per):
+                out['violation'] = f"{label}: generated identifiers repeated across two calls"
         return out
     # every object built by ONE call has its own identifier (also in the file meta) ...
     sops = [str(o.SOPInstanceUID) for o in objs]
@@ -1593,6 +1674,9 @@ def _gen_layout_cases(rng, n):
             i += 1
             cases.append(_ctor(rng, 'sc', {'layout': lay, 'sc_kind': k}, i))
         cases.append(_ctor(rng, 'ann', {'layout': lay}, i))
+        cases.append(_ctor(rng, 'sc', {'layout': lay, 'sc_kind': rng.choice(['u8', 'u16', 'rgb']), 'ts': 'rle'}, i))
+        cases.append(_ctor(rng, rng.choice(['seg_labelmap', 'seg_fractional']),
+                           {'layout': lay, 'dtype': rng.choice(['uint8', 'uint16']), 'ts': 'rle'}, i + 1))
         cases.append(_ctor(rng, 'pyramid', {'layout': lay, 'mode': rng.choice(['factors', 'arrays'])}, i))
         cases.append(_ctor(rng, 'pr', {'layout': lay, 'pr': rng.choice(['voilut', 'modlut', 'pseudocolor']),
                                        'entries': rng.choice([3, 4, 5])}, i))
@@ -1611,6 +1695,9 @@ def _gen_layout_cases(rng, n):
 def _gen_multi_cases(rng, n):
     cases = []
     i = 0
+    for t in ('tracking_identifiers', 'dimension_indexes'):
+        for _ in range(2 * n):
+            cases.append({'kind': 'ctor_multi', 'target': t, 'seed': rng.getrandbits(32), 'strict': 'write', 'opt': {}})
     for _ in range(n):
         for mode in ('factors', 'sources', 'arrays'):
             for levels in (2, 3):
